@@ -84,12 +84,12 @@ func ruleC08NewSize(e *Env) {
 	const (
 		kZero   = "value?0"
 		kEmpty  = `unit==""`
-		kZU     = "lookup#1(*size.zeroUnits,unit)"
-		kUTV    = "lookup#1(*size.unitToValues,unit)"
 		kRound  = "roundtrip"
 		kHi     = "hi!=0"
 		mulTerm = "math/bits.Mul64"
 	)
+	kZU := "lookup#1(*size." + e.vname("size", "zeroUnits") + ",unit)"
+	kUTV := "lookup#1(*size." + e.vname("size", "unitToValues") + ",unit)"
 	keyOf := func(a, b pred.Val) (string, bool) {
 		as, bs := a.String(), b.String()
 		switch {
@@ -176,7 +176,7 @@ func ruleC08NewSize(e *Env) {
 		switch {
 		case strings.HasPrefix(gv, "conv[") && strings.HasSuffix(gv, "(value)"):
 			gv = "conv(value)"
-		case strings.HasPrefix(gv, mulTerm+"#1(conv[uint64](value),lookup#0(*size.unitToValues,unit))"):
+		case strings.HasPrefix(gv, mulTerm+"#1(conv[uint64](value),lookup#0(*size."+e.vname("size", "unitToValues")+",unit))"):
 			gv = "lo"
 		}
 		got := gv + " / " + sizeErrType(t[1])
@@ -195,8 +195,8 @@ func ruleC08NewSize(e *Env) {
 func ruleC08Text(e *Env) {
 	const rule = "C08.text"
 	fn := e.Fn(rule, "size", "unmarshalText")
-	pn := e.P.Func("size", "prepareNumber")
-	ns := e.P.Func("size", "newSize")
+	pn := e.F("size", "prepareNumber")
+	ns := e.F("size", "newSize")
 	if fn == nil || pn == nil || ns == nil {
 		return
 	}
@@ -373,7 +373,7 @@ func ruleC08Max(e *Env, prog *load.Prog, tag string) {
 func ruleC08Bytes(e *Env) {
 	const rule = "C08.bytes"
 	fn := e.Fn(rule, "size", "Bytes")
-	kindFn := e.P.Func("internal", "Kind")
+	kindFn := e.F("internal", "Kind")
 	if fn == nil || kindFn == nil {
 		return
 	}
